@@ -114,8 +114,11 @@ let handle (i : string list) (o : string list) =
         with Not_found -> 0) o) in
     let cur_xml = ref 0 in
     let publish_failed = ref false in
+    let xml_seq = ref [] and xml_calls = ref 0 in   (* per publish call of one step: size to use (else cur_xml) *)
     let fdt_ok _ = (if not raptor then true else
-                      let k = (!cur_xml + session_e - 1) / session_e in
+                      let len = (match List.nth_opt !xml_seq !xml_calls with Some l -> l | None -> !cur_xml) in
+                      incr xml_calls;
+                      let k = (len + session_e - 1) / session_e in
                       let ok = not (k = 2 || k = 3) in
                       if not ok then publish_failed := true; ok) in
     let mk_op t head = match t with
@@ -185,8 +188,25 @@ let handle (i : string list) (o : string list) =
            st := !cur
          | _ ->
         let mop = mk_op t head in
-        let (mout, s1) = step fdt_npk fdt_ok divf s0 mop in
         let iout = impl_out head in
+        (* the instance a publish inside this operation builds lists the files as they are either
+           before the operation (publish by the first run of the FDT session) or after it (publish
+           after a transfer ended / started in the same read): when the two sizes fall on different
+           sides of the Raptor limit both answers of the oracle are tried, the one reproducing the
+           implementation's output is kept *)
+        let before = !cur_xml and after = (if k + 1 < Array.length xlens then xlens.(k + 1) else !cur_xml) in
+        let pf0 = !publish_failed in
+        let attempt seq = (xml_seq := seq; xml_calls := 0; cur_xml := (match List.rev seq with l :: _ -> l | [] -> before);
+                           publish_failed := pf0; let r = step fdt_npk fdt_ok divf s0 mop in (r, !publish_failed)) in
+        let good (r, _) = (fst r = iout && (snd r).evlog = evs) in
+        let ((mout, s1), pf) =
+          (let r1 = attempt [before] in
+           if raptor && after <> before && not (good r1) then
+             (match List.find_opt good (List.map attempt [[before; after]; [after]; [after; before]]) with
+              | Some r -> r | None -> attempt [before])
+           else r1) in
+        xml_seq := []; cur_xml := before;
+        publish_failed := pf;
         let mview = List.sort compare (List.map (fun (a, b) -> (int_of_n a, int_of_n b)) (files_view s1)) in
         (* trace event as the implementation reported it *)
         let tev = (match mop, iout with
